@@ -246,11 +246,11 @@ void run(const Case &c, verif_result *out) {
     G g(0);
     Model m;
     StepFacts facts;
-    std::string observer, r, where = "build";
+    std::string observer, r, where = "build", exactText;
     try {
         buildGraph(s, "int", g, m);
         where = "observers";
-        r = verifyBuilt(g, m, observer);
+        r = verifyBuilt(g, m, observer, &exactText);
         if (r.empty()) {
             where = "iteration";
             r = iterChecks(g, m, observer, facts);
@@ -269,7 +269,7 @@ void run(const Case &c, verif_result *out) {
     }
     bool nt = facts.tags.count("n_zero") || facts.tags.count("no_edge") || facts.tags.count("first_isolated") || facts.tags.count("last_isolated") ||
               facts.tags.count("list_not_ascending");
-    fillResult(out, 0, nt, 0, "", joinTags(facts), "");
+    fillResult(out, 0, nt, fnv1a(exactText), "", joinTags(facts), "");
 }
 
 } // namespace
